@@ -15,7 +15,7 @@ CLAIMS = {
     "C02": ("proof",
             "Theorem (all tables, both modes, all inputs, every non-stream root): an accepted decode whose only reported problems are value warnings "
             "has a tiled trace whose per-event chunks concatenate to the input, and each chunk is the re-encoding of the event's value (any width, both signs). "
-            "Streams: the run-level tiling theorem holds for every completed run; the pump-level statement for stream roots is not proved (correspondence + oracle only). "
+            "The same for the stream root (C02_accepted_stream_is_tiled_by_its_events, Proofs/WTiling.v + StreamTiling.v): the part of the trace before the message root at which the pump ends the stream is tiled, its chunks concatenate to the whole input and the emitted events are its events. Nothing of the property is left without a theorem about the model. "
             "Tie: extracted model vs implementation on generated/corpus inputs; oracle: b''.join(Binary.unmarshal(events)) == input and per-field slices on the implementation.",
             "Coq proof (trace invariant by one structural induction over the decoder model) + model/implementation correspondence + round-trip oracle", "4 C02"),
     "C13": ("proof",
